@@ -135,7 +135,8 @@ theorem phaseD {n0 : Nat} {s3 : Stream} (hr : Reach s3) (ok : RcvOk s3.rcv) (hs 
     (hwin : s3.snd.written.length ≤ s3.snd.maxData) (hidle : s3.snd.somePick = none) {cap : Nat}
     (hcap : s3.snd.written.length < cap) :
     let s6 := s3.run (settleOps (fun _ => true) (List.range' n0 (s3.emitted.length - n0)) ++ [.read cap, .read cap])
-    s6.eof = true ∧ s6.out = s3.snd.written ∧ s6.snd.written = s3.snd.written ∧ s6.snd.st = .dataRcvd := by
+    s6.eof = true ∧ s6.out = s3.snd.written ∧ s6.snd.written = s3.snd.written ∧ s6.snd.st = .dataRcvd ∧
+      s6.rcv.st = .dataRead := by
   intro s6
   obtain ⟨he, hst⟩ := hs
   -- nothing pickable, and the sender is in DataSent (clean) or DataRcvd
@@ -224,7 +225,7 @@ theorem phaseD {n0 : Nat} {s3 : Stream} (hr : Reach s3) (ok : RcvOk s3.rcv) (hs 
       (s3.run (settleOps (fun _ => true) new)).snd := by rw [step_read_snd, step_read_snd]
   have hnr := hr6.inv.b4.2 h6b
   obtain ⟨_, hfs⟩ := hr6.inv.b3 (Or.inr (Or.inr h6b))
-  refine ⟨h6a, ?_, by rw [hsnd]; exact hm4.wr, by rw [hsnd]; exact hdone⟩
+  refine ⟨h6a, ?_, by rw [hsnd]; exact hm4.wr, by rw [hsnd]; exact hdone, h6b⟩
   rw [hr6.inv.b2, hnr, hfs, List.take_length, hsnd, hm4.wr]
 
 end GmQuic.Stream
